@@ -293,7 +293,7 @@ def _narrowed_away_from_dict(value, node):
     return False
 
 
-def r84(ctx, rep):
+def r84(ctx, rep, rule="R8.4"):
     res = ctx.res
     n = 0
     for f in ctx.repo.funcs.values():
@@ -302,15 +302,15 @@ def r84(ctx, rep):
                 bt = res.type_of(node.value, f)
                 if USERDICT in bt and node.attr not in ("get", "items", "keys", "values", "setdefault", "copy", "pop", "update") and not _narrowed_away_from_dict(node.value, node):
                     n += 1
-                    rep.bad("R8.4", f"{f.local}:{node.lineno} {norm(node)}")
-                    rep.finding("R8.4", f, norm(node), node.lineno,
+                    rep.bad(rule, f"{f.local}:{node.lineno} {norm(node)}")
+                    rep.finding(rule, f, norm(node), node.lineno,
                                 f"attribute `.{node.attr}` is read from a value that can be a dict constraint "
                                 f"(dict constraints are handed over un-normalised): AttributeError at run time")
             elif isinstance(node, ast.Subscript) and isinstance(node.slice, ast.Constant) and isinstance(node.slice.value, str):
                 bt = res.type_of(node.value, f)
                 if bt and USERNLC in bt and USERDICT not in bt:
-                    rep.bad("R8.4", f"{f.local}:{node.lineno} {norm(node)}")
-                    rep.finding("R8.4", f, norm(node), node.lineno, "string subscript on a NonlinearConstraint object")
+                    rep.bad(rule, f"{f.local}:{node.lineno} {norm(node)}")
+                    rep.finding(rule, f, norm(node), node.lineno, "string subscript on a NonlinearConstraint object")
     # producer side: what reaches NonlinearConstraints(...)
     c = ctx.repo.cls("NonlinearConstraints")
     init = c.methods.get("__init__")
@@ -323,13 +323,13 @@ def r84(ctx, rep):
         et = elem(t)
         desc = f"{ev.func.local}:{ev.line} NonlinearConstraints({norm(ev.node.args[0])}) element kinds {{{', '.join(sorted(a[1] for a in et if a[0] == 'ext'))}}}"
         if USERDICT in et:
-            rep.bad("R8.4", desc)
-            rep.finding("R8.4", ev.func, ev.text(), ev.line,
+            rep.bad(rule, desc)
+            rep.finding(rule, ev.func, ev.text(), ev.line,
                         "dict constraints reach NonlinearConstraints without being converted to NonlinearConstraint objects")
         else:
-            rep.ok("R8.4", desc)
+            rep.ok(rule, desc)
     if n == 0:
-        rep.ok("R8.4", "no attribute read on a dict-typed constraint value")
+        rep.ok(rule, "no attribute read on a dict-typed constraint value")
 
 
 def r85(ctx, rep):
